@@ -1354,3 +1354,7 @@ mod tests {
         assert_eq!(addr.to_string(), "1234567890.example.com:123");
     }
 }
+
+#[cfg(all(test, pendulum_project_ntpd_rs_verif))]
+#[path = "/verif/harness/ntpd/probe_config_source.rs"]
+pub(crate) mod verif_probe;
